@@ -14,7 +14,8 @@ RULE = ('cases = generated (taxonomy of 1-4 levels and 2-10 leaves, reference-ma
         'counts aimed at 0, the target n, n+1, 2n-1, 2n, 2n+1 and dense rows, or Bernoulli tables from 2% to 50% density; '
         '3-36 reference genes in random order; query = drawn subset of the reference genes plus unknown genes; target 1-6 with '
         'per-parent overrides; optional parent list; 3 run configurations covering thresholds 0 / between the parents\' pair counts / huge '
-        'with 1-4 workers through either entry point); every (parent, pair it must discriminate) is checked against the census; '
+        'with a serial and a parallel run among them, through either entry point) plus a deterministic 116-case boundary grid (one pair taking every '
+        '(n_up, n_down) in 0..2n+1, n = 1..3, beside a rich and a one-marker pair); every (parent, pair it must discriminate) is checked against the census; '
         'non-trivial = some processed parent has a pair with fewer query-available reference markers than twice its target and a pair '
         'with more; distinct = distinct spec hash')
 ASSUMPTIONS = [
@@ -34,6 +35,28 @@ def strategy(tier):
     if tier == 'thorough':
         return G.cases(max_leaves=12, max_genes=48)
     return G.cases()
+
+
+def enumerate_specs(tier):
+    """deterministic boundary grid: in a 3-leaf, 2-level taxonomy the pair (a, c) takes every (n_up, n_down) in 0..2n+1 for
+    n = 1..3 next to a rich pair (b, c) that shares its low-numbered genes and a one-marker pair (a, b) below class A"""
+    tree = {'hierarchy': ['class', 'cluster'], 'class': {'A': ['a', 'b'], 'B': ['c']},
+            'cluster': {'a': [], 'b': [], 'c': []}}
+    out = []
+    for n in (1, 2, 3):
+        n_genes = 4 * n + 4
+        genes = [f'g{i}' for i in range(n_genes)]
+        for nu in range(2 * n + 2):
+            for nd in range(2 * n + 2):
+                up = [[1], list(range(nu)), list(range(n + 1))]
+                down = [[], list(range(nu, nu + nd)), list(range(n_genes - n - 1, n_genes))]
+                out.append({'tree': tree, 'genes': genes, 'tensor': {'up': up, 'down': down}, 'dtypes': 'writer',
+                            'query': genes + ['zz0'], 'n_per_utility': n, 'override': {}, 'parent_list': None,
+                            'configs': [{'n_processors': 1, 'behemoth_cutoff': 0, 'cutoff_kind': 'zero',
+                                         'entry': 'select_all_markers'},
+                                        {'n_processors': 2, 'behemoth_cutoff': 10 ** 7, 'cutoff_kind': 'huge',
+                                         'entry': 'raw_lookup'}]})
+    return out
 
 
 def sample_view(spec):
